@@ -82,40 +82,6 @@ impl<'a, T> VxIntoIt<'a, T> for It<'a, T> {
     fn vx_into_iter(self) -> (r: It<'a, T>) { self }
 }
 
-// ---- boxed systems: `Box<dyn for<'a> RunNow<'a> + Send>` is opaque; ghost identity and declared access
-#[verifier::external_body]
-pub struct SysBox { _p: u8 }
-// ---- i8::abs (std): panics/overflows only for i8::MIN
-pub trait VxAbs: Sized { spec fn vxa(&self) -> int; fn vx_abs(self) -> (r: Self) requires self.vxa() > -128 ensures r.vxa() == (if self.vxa() < 0 { -self.vxa() } else { self.vxa() }); }
-impl VxAbs for i8 {
-    open spec fn vxa(&self) -> int { *self as int }
-    fn vx_abs(self) -> (r: i8) { if self < 0 { -self } else { self } }
-}
-impl SysBox {
-    // what the boxed system declared when it was registered (its accessor's reads / writes)
-    pub uninterp spec fn decl_reads(&self) -> Seq<ResourceId>;
-    pub uninterp spec fn decl_writes(&self) -> Seq<ResourceId>;
-}
-// ---- the System / Accessor tower, seen from the scheduler: a system reports read and write lists and a time hint.
-// Assumed *stable*: the same answer on every call (the crate's documentation requires it of implementors).
-pub trait System: Sized {
-    spec fn spec_reads(&self) -> Seq<ResourceId>;
-    spec fn spec_writes(&self) -> Seq<ResourceId>;
-    spec fn spec_time(&self) -> RunningTime;
-    fn accessor(&self) -> (r: Acc) ensures r.r@ == self.spec_reads(), r.w@ == self.spec_writes();
-    fn running_time(&self) -> (r: RunningTime) ensures r == self.spec_time();
-}
-pub struct Acc { pub r: Vec<ResourceId>, pub w: Vec<ResourceId> }
-impl Acc {
-    #[verifier::external_body] pub fn reads(&self) -> (v: Vec<ResourceId>) ensures v@ == self.r@ { self.r.clone() }
-    #[verifier::external_body] pub fn writes(&self) -> (v: Vec<ResourceId>) ensures v@ == self.w@ { self.w.clone() }
-}
-// Box::new(system) coerced to the trait object: identity of the declared access is all that is kept
-#[verifier::external_body]
-pub fn vx_boxed<T: System>(system: T) -> (b: SysBox)
-    ensures b.decl_reads() == system.spec_reads(), b.decl_writes() == system.spec_writes()
-{ unimplemented!() }
-
 // ---- Vec operations without a vstd specification
 pub open spec fn same_set<T>(a: Seq<T>, b: Seq<T>) -> bool { forall|x: T| a.contains(x) <==> b.contains(x) }
 pub trait VxVecExt<T>: Sized {
@@ -130,4 +96,10 @@ impl<T> VxVecExt<T> for Vec<T> {
     #[verifier::external_body] fn vx_extend(&mut self, other: Vec<T>) { self.extend(other) }
     #[verifier::external_body] fn vx_sort(&mut self) { unimplemented!() }
     #[verifier::external_body] fn vx_dedup(&mut self) { unimplemented!() }
+}
+// ---- i8::abs (std): overflows only for i8::MIN
+pub trait VxAbs: Sized { spec fn vxa(&self) -> int; fn vx_abs(self) -> (r: Self) requires self.vxa() > -128 ensures r.vxa() == (if self.vxa() < 0 { -self.vxa() } else { self.vxa() }); }
+impl VxAbs for i8 {
+    open spec fn vxa(&self) -> int { *self as int }
+    fn vx_abs(self) -> (r: i8) { if self < 0 { -self } else { self } }
 }
